@@ -11,7 +11,8 @@ def props_block():
         pid = 'C%02d' % i
         try:
             ev = json.load(open(os.path.join(V, 'evidence', pid + '.json')))
-            mod = importlib.import_module('props.' + pid)
+            import check as _check
+            mod = _check.merge_extensions(importlib.import_module('props.' + pid))
         except Exception as e:
             out.append('#### %s\nno evidence (%s)\n' % (pid, e)); continue
         c = ev['coverage']
@@ -19,7 +20,14 @@ def props_block():
         out.append('#### %s — %d/%d theorems kernel-checked' % (pid, c['discharged'], c['obligations']))
         out.append('*Claim.* ' + mod.LEVEL_TEXT.strip())
         out.append('')
-        out.append('*Theorems (`lean/OpusProps/%s.lean`).* ' % pid + ', '.join('`%s`' % n for n in names) + '.')
+        groups = {}
+        for t in c.get('theorems', []):
+            parts = t['name'].split('.')
+            groups.setdefault(parts[-2] if len(parts) > 1 else pid, []).append(parts[-1])
+        for g, ns in groups.items():
+            out.append('*Theorems (`lean/OpusProps/%s.lean`).* ' % g + ', '.join('`%s`' % n for n in ns) + '.')
+            out.append('')
+        out.pop()
         if c.get('partial_theorems'):
             out.append('')
             out.append('*Proved only in part.* ' + ', '.join('`%s`' % n.split('.')[-1] for n in c['partial_theorems']) + '.')
